@@ -7,7 +7,7 @@ from wire import hx, lst
 
 KIND = "shell"
 SPECS = ["C01"]
-THEOREMS = ["Tty.echo_length_noctl", "Tty.echo_length_ctl", "Quote.posixWords_escape"]
+THEOREMS = ["Tty.echo_length_noctl", "Tty.echo_length_ctl", "C01Q.posixWords_escape", "C01Q.spec_holds"]
 LEAN_MODULES = ["TbotVerif.Props.Tty", "TbotVerif.Props.C01Q", "TbotVerif.Spec.Shell"]
 QUICK_N, THOROUGH_N = 700, 20000
 QUICK_BUDGET, THOROUGH_BUDGET = 45, 1500
